@@ -75,8 +75,18 @@ HAND = [
     'a if a is None else b', 'a is None if b else c is None', 'f(a is None, b is not None)', 'x.m(a) == x.m(b)', 'x.m(a)[0]', 'f(a)[0][0]', 'x.items[0] if x.items else None', '[a][0]', '(a, b)[1]', '{"k": a}["k"]',
     'a.__class__', 'type(a)', 'str(a) + str(b)', 'int(a or 0) + 1', 'f(lambda: 1) is not None' if False else 'f(a) is not None', 'x.p == a and x.q == "q" or x.p == b', 'not x.p == a', 'not (x.p == a or x.q)',
 ]
+# conditional expressions combined with and / or / not, comparisons, calls and each other (round 17: several of them are decompiled with another meaning - known findings)
+HAND += ['c and (a if b else c)', '(a if b else c) and c', 'c or (a if b else c)', '(a if b else c) or a', 'a if b and c else c', 'a if b or c else b', 'a if b else c and a', 'a if b else (c or a)',
+         '(a and c) if b else c', 'not (a if b else c)', 'a if not b else c', '(a if b else c) == a', 'c and (a if b else c) and a', 'c or a if b else c', '(c or a) if b else c', 'c and a if b else c',
+         'a if (b if c else a) else c', 'a if b else c if a else b', '(a if b else c, c and a)', 'f(a if b else c, c or b)', 'x.p and (a if b else c)', '(a if x.p else c) and b', 'a if x.p and b else c',
+         'x.p if a else (x.q if b else c)', '(x.p if a else x.q) if b else c', 'f(a if b else c)', '[a if b else c][0]', '(a if b else c) + (c if a else b)', '(a if b else c) is None', 'a if b is None else c',
+         'a if b in (1, 2) else c', 'x.m(a if b else c)', 'x.items[a if b else 0]', 'a if b else c or None', 'not a if b else not c', '(a or b) if (b and c) else (c or a)']
 # replacement fields of f-strings: conversions and format specs (plain, nested, with a conversion)
 HAND += ['f"{a!r}"', 'f"{a!s}-{b!a}"', 'f"{a:>5}"', 'f"{a!r:>5}"', 'f"{a:{b}}"', 'f"{x.q!r}-{x.p}"', 'f"{x.q:>3}|"', 'f"{x.q!s:{a}}"', 'f"{{{a}}}"']
+# expressions big enough for the EXTENDED_ARG prefix of the bytecode: > 256 constants, > 255 code units to jump over, many names
+HAND += ['[a, ' + ', '.join(str(1000 + k) for k in range(300)) + '][-1 - (a or 0)]', '(' + ', '.join('"s%d"' % k for k in range(280)) + ')[270 + (b or 0)]',
+         ' or '.join('x.p == %d and x.q == "q%d"' % (k, k) for k in range(14)), ' and '.join('(x.p != %d or a == %d)' % (k + 5, k) for k in range(16)),
+         'a if ' + ' and '.join('x.p != %d' % (k + 7) for k in range(40)) + ' else b']
 # every slice shape: lower / upper / step each omitted, a name, a positive or a negative constant (the compiler uses different instructions for two-part and stepped slices)
 HAND += ['x.items[%s:%s%s]' % (lo, up, st) for lo in ('', 'a', '1', '-1') for up in ('', 'b', '2', '-1') for st in ('', ':', ':c', ':2', ':-1')]
 HAND += ['x.items[a:b][c]', 'x.items[a::c][0:1]', 'x.m2[a:b, c]' if False else 'x.items[a:][::c]', 'x.q[a::c]', 'x.q[::-1][a:]', '(x.items + x.items)[a::2]', 'x.items[(a or 0) + 1::c]']
@@ -229,7 +239,11 @@ def _cache_case(cfg, values):
     return Case(call, {}, [])
 
 
-KNOWN_WRONG = ('((a if b else (c if a else b)) for x in xs)', '(x.p for x in xs if (a if b else (c if a else b)))')
+KNOWN_WRONG = ('((a if b else (c if a else b)) for x in xs)', '(x.p for x in xs if (a if b else (c if a else b)))',
+               '((c or (a if b else c)) for x in xs)', '(x.p for x in xs if (c or (a if b else c)))', '(x.p for x in xs if ((a if b else c) or a))',
+               '((a if b else c if a else b) for x in xs)', '(x.p for x in xs if (a if b else c if a else b))', '((x.p and (a if b else c)) for x in xs)',
+               '(x.p for x in xs if (x.p and (a if b else c)))', '((x.p if a else (x.q if b else c)) for x in xs)', '(x.p for x in xs if (x.p if a else (x.q if b else c)))')
+# (sources whose decompiled tree has another meaning - the known findings of the decompile contract; the cache contract cannot use them as witnesses of 'the tree of another expression')
 
 
 def _cfgs(tier):
